@@ -14,6 +14,7 @@ import (
 	"sync/atomic"
 	"testing"
 
+	"github.com/aperturerobotics/util/broadcast"
 	"github.com/aperturerobotics/util/ccontainer"
 	"github.com/aperturerobotics/util/conc"
 	"github.com/aperturerobotics/util/csync"
@@ -544,6 +545,78 @@ func TestC05Free(t *testing.T) {
 				wg.Wait()
 				sc.ClearContext()
 				cancel()
+			}
+		})
+}
+
+// ---- C03: no missed broadcast under real contention (incl. the asynchronous slow path) ----
+
+func TestC03Free(t *testing.T) {
+	drive(t, "C03", "2..10 goroutines x 1..20 ops on one Broadcast guarding a counter: increments through HoldLock / TryHoldLock (retried) / HoldLockMaybeAsync (asynchronous slow path under contention) and Wait(counter >= k) with k <= the total number of increments; oracle: every Wait returns nil having seen its predicate true, the final counter equals the number of increments; non-trivial iff >= 2 goroutines; distinct by program", 20,
+		func(cs Case, v *ev.Verdict) {
+			f := &failer{v: v}
+			var b broadcast.Broadcast
+			counter := 0
+			total := 0
+			for _, prog := range cs.G {
+				for _, op := range prog {
+					if op%4 != 3 {
+						total++
+					}
+				}
+			}
+			var asyncDone atomic.Int32
+			var wwg sync.WaitGroup
+			inc := func(broadcast func(), _ func() <-chan struct{}) { counter++; broadcast() }
+			incAsync := func(broadcast func(), _ func() <-chan struct{}) { counter++; broadcast(); asyncDone.Add(1) }
+			nAsync := 0
+			for _, prog := range cs.G {
+				for _, op := range prog {
+					if op%4 == 2 {
+						nAsync++
+					}
+				}
+			}
+			parallel(len(cs.G), func(g int) {
+				for _, op := range cs.G[g] {
+					switch op % 4 {
+					case 0:
+						b.HoldLock(inc)
+					case 1:
+						for !b.TryHoldLock(inc) {
+							runtime.Gosched()
+						}
+					case 2:
+						b.HoldLockMaybeAsync(incAsync)
+					default:
+						k := 0
+						if total > 0 {
+							k = 1 + op%total
+						}
+						// waiters run beside the incrementing goroutines (which never block), so every wait terminates
+						wwg.Add(1)
+						go func() {
+							defer wwg.Done()
+							sawTrue := false
+							err := b.Wait(context.Background(), func(_ func(), _ func() <-chan struct{}) (bool, error) {
+								sawTrue = counter >= k
+								return sawTrue, nil
+							})
+							if err != nil || !sawTrue {
+								f.add("C03", "broadcast:nil-without-true", "Wait(counter >= %d) returned %v with predicate true=%v", k, err, sawTrue)
+							}
+						}()
+					}
+				}
+			})
+			for int(asyncDone.Load()) < nAsync {
+				runtime.Gosched() // asynchronous sections still pending
+			}
+			wwg.Wait() // a waiter that missed a broadcast hangs here: reported through the watchdog
+			got := -1
+			b.HoldLock(func(_ func(), _ func() <-chan struct{}) { got = counter })
+			if got != total {
+				f.add("C03", "broadcast:lost-update", "%d increments under the lock ended at %d", total, got)
 			}
 		})
 }
